@@ -288,6 +288,11 @@ impl<'a> Ctx<'a> {
             if comm == "ok" && p.stopped_waiting().map(|s| s.2 == "timed_out").unwrap_or(false) {
                 comm = "timed_out".into();
             }
+            // ... and a read round that ran out of time after which scrut went on to wait for the
+            // process, and got its status, is not one
+            if comm == "timed_out" && p.stopped_waiting().map(|s| s.2 == "ok").unwrap_or(false) {
+                comm = "ok".into();
+            }
             if comm == "timed_out" {
                 stop = Some(Stop::Timeout(i));
                 j.must_fail = true;
@@ -1024,6 +1029,58 @@ impl<'a> Ctx<'a> {
                             raw.stderr,
                             Bytes(eo.clone()),
                             Bytes(ee.clone())
+                        ),
+                    ));
+                }
+            }
+        }
+        // whatever the history looked like (reading in rounds, pauses, background writers): a
+        // test case that scrut records WITH an exit code carries everything its command wrote -
+        // only a result without exit code (timeout, no exit code) may come with less
+        for (d, j) in self.obs.docs.iter().zip(judgements.iter()) {
+            let main = &self.sc.docs[d.doc];
+            if self.script_mode(main) {
+                continue;
+            }
+            for tj in &j.tests {
+                if tj.exact || tj.detached {
+                    continue;
+                }
+                let (Some(pid), Some(to)) = (tj.pid, d.tests.iter().find(|t| t.nonce == tj.nonce)) else { continue };
+                let Some(raw) = &to.raw else { continue };
+                let ExitObs::Code { code: recorded } = &raw.exit else { continue };
+                let p = &self.facts.procs[pid as usize];
+                let complete = p.cmds.first().map(|c| c.complete).unwrap_or(false);
+                let killed_first = p.killed.map(|k| p.exit_seq > k.2).unwrap_or(false);
+                if !p.faults.is_empty() || !complete || killed_first || p.exit_code() != Some(*recorded) {
+                    continue;
+                }
+                let Some((tdoc, t)) = self.sc.find_test(&tj.nonce) else { continue };
+                let eff = self.sc.effective(main, tdoc, t);
+                if eff.detached || eff.strip_ansi {
+                    continue;
+                }
+                let w = self.prog(&tj.nonce);
+                if w.dies.is_some() || w.hangs {
+                    continue;
+                }
+                let (eo, ee) = expected_streams(&eff, &w);
+                if to.raw_lossy && !(eo.is_ascii() && ee.is_ascii()) {
+                    continue;
+                }
+                if raw.stdout.0 != eo || raw.stderr.0 != ee {
+                    out.push(v(
+                        "C13",
+                        "bytes-differ",
+                        Some(&tj.nonce),
+                        format!(
+                            "test {} is recorded with exit code {} but not with everything its command wrote: recorded stdout {:?} stderr {:?}; written (after the documented transformations) stdout {:?} stderr {:?}",
+                            tj.nonce,
+                            recorded,
+                            raw.stdout,
+                            raw.stderr,
+                            Bytes(eo),
+                            Bytes(ee)
                         ),
                     ));
                 }
